@@ -891,13 +891,21 @@ uint8 LexerToken :: GetNumericQueryFilterOp() const
 
 #define RETURN_ON_SYNONYM_FOR_TOKEN(s, syn, theTok) {if (Strncasecmp(s, syn, sizeof(syn)-1) == 0) {retNumCharsConsumed = (uint32)(sizeof(syn)-1); return theTok;}}
 
+// Returns true iff (c) is a character that can be part of a word (e.g. of an unquoted field name)
+static bool IsWordChar(char c) {return ((muscleInRange(c, 'a', 'z'))||(muscleInRange(c, 'A', 'Z'))||(muscleInRange(c, '0', '9'))||(c == '_'));}
+
 static int32 GetMatchingToken(const char * s, uint32 & retNumCharsConsumed)
 {
    for (int32 i=ARRAYITEMS(_tokStrs)-1; i>=0; i--)
    {
       const char * ts    = _tokStrs[i];
       const uint32 tsLen = _tokStrlens[i];
-      if ((tsLen > 0)&&(Strncasecmp(s, ts, tsLen) == 0)) {retNumCharsConsumed = tsLen; return i;}
+      if ((tsLen > 0)&&(Strncasecmp(s, ts, tsLen) == 0))
+      {
+         if ((IsWordChar(ts[tsLen-1]))&&(IsWordChar(s[tsLen]))) continue;  // e.g. "whatever" is not the keyword "what"
+         retNumCharsConsumed = tsLen;
+         return i;
+      }
    }
 
    // Some special-case synonyms, just to be user-friendly
@@ -961,7 +969,9 @@ public:
                const char * t = s;
                while(1)  // we'll handle the NUL char in the if statement below
                {
-                  if (((*t == '\0')||(muscleIsSpace(*t)))||(GetMatchingToken(t, numCharsInToken) >= 0))
+                  // (a keyword-token is recognized only at the start of a word, so that e.g. "eyecolor" or "island" can be field names)
+                  const bool isInsideWord = ((t > s)&&(IsWordChar(*t))&&(IsWordChar(*(t-1))));
+                  if (((*t == '\0')||(muscleIsSpace(*t)))||((isInsideWord == false)&&(GetMatchingToken(t, numCharsInToken) >= 0)))
                   {
                      retTok   = LexerToken(String(s, (uint32) (t-s)), false);
                      _curPos += retTok.GetValueString().Length();
